@@ -9,10 +9,14 @@ import (
 	"flag"
 	"fmt"
 	"os"
+	"runtime"
 	"runtime/debug"
+	"runtime/pprof"
 	"sort"
 	"strconv"
 	"strings"
+	"sync/atomic"
+	"time"
 )
 
 // PropertyCheck is the static check of one property.
@@ -29,7 +33,33 @@ var registry = map[string]*PropertyCheck{}
 
 func register(pc *PropertyCheck) { registry[pc.ID] = pc }
 
+// resourceExceeded is raised by the memory watchdog; every engine then ends its
+// paths as "stuck", so that the rules report undecided instead of the process
+// exhausting the machine on code whose exploration does not stay bounded.
+var resourceExceeded atomic.Bool
+
+func startWatchdog() {
+	go func() {
+		var ms runtime.MemStats
+		for {
+			time.Sleep(200 * time.Millisecond)
+			runtime.ReadMemStats(&ms)
+			if ms.HeapAlloc > 3<<30 {
+				resourceExceeded.Store(true)
+			}
+		}
+	}()
+}
+
 func main() {
+	startWatchdog()
+	if pf := os.Getenv("PRISMCHECK_CPUPROF"); pf != "" {
+		// developer aid: CPU profile, stopped after 30 s or at exit
+		if f, err := os.Create(pf); err == nil {
+			pprof.StartCPUProfile(f)
+			go func() { time.Sleep(30 * time.Second); pprof.StopCPUProfile(); f.Close(); os.Exit(3) }()
+		}
+	}
 	prop := flag.String("property", "", "property id (C01..C20)")
 	tier := flag.String("tier", os.Getenv("VERIF_TIER"), "quick|thorough")
 	repo := flag.String("repo", "/repo", "repository working tree to analyse")
